@@ -1006,9 +1006,18 @@ class Interpreter:
                         assignments[target.id] = statement
                 statement = statement.value
             if statement is not None:
-                for node in ast.walk(statement):
+                # not ast.walk(): a self-referential list or dict is a literal that contains itself,
+                # and walking it without remembering the nodes already seen never ends
+                seen: Set[int] = set()
+                todo = [statement]
+                while todo:
+                    node = todo.pop()
+                    if id(node) in seen:
+                        continue
+                    seen.add(id(node))
                     if isinstance(node, ast.Name):
                         used.add(node.id)
+                    todo.extend(ast.iter_child_nodes(node))
         return {varname: assignments[varname] for varname in defined - used}
 
     def unused_variables(self) -> FrozenSet[str]:
